@@ -16,6 +16,7 @@ class Obs:
         self.world = world
         m = world.module
         self.sections = {}
+        self.reordered = False
         self.align = {}
         at = m.aux_data.get("alignment")
         if at is not None:
@@ -66,12 +67,85 @@ def adopt_new_units(world, model, obs, prop):
             raise core.Violation(
                 "C01", "patch-missing", {"what": "expected new unit has no byte interval", "section": s, "bytes": u.bytes().hex()[:200]}, {"where": "new-unit"}
             )
-    # keep the model's unit order equal to the real address order
+    # A label at the edge of a unit denotes the same listing position as
+    # the adjacent edge of the neighbouring unit.  Keep it in the unit whose
+    # block the implementation attached it to, before units may change
+    # places (layout may reorder byte intervals).
+    import gtirb
+
+    home = {}
+    dup = set()
+    for sym in world.module.symbols:
+        r = sym.referent
+        if sym.name in home:
+            dup.add(sym.name)
+        if isinstance(r, gtirb.ByteBlock) and r.byte_interval is not None:
+            home[sym.name] = world.unit_of_interval.get(str(r.byte_interval.uuid))
+    for sname in model.section_order:
+        units = model.sections[sname]
+        for i, u in enumerate(units):
+            if not u.toks:
+                continue
+            first_b = next((k for k, t in enumerate(u.toks) if t.is_bytes()), None)
+            last_b = next((k for k in range(len(u.toks) - 1, -1, -1) if u.toks[k].is_bytes()), None)
+            lead = u.toks[: first_b if first_b is not None else len(u.toks)]
+            trail = u.toks[last_b + 1 :] if last_b is not None else []
+            prev = next((x for x in reversed(units[:i]) if x.bytes()), None)
+            nxt = next((x for x in units[i + 1 :] if x.bytes()), None)
+            for t in list(trail if last_b is not None else lead):
+                if t.kind != "label" or t.name in dup:
+                    continue
+                h = home.get(t.name)
+                if h is None or h == u.id:
+                    continue
+                if nxt is not None and h == nxt.id:
+                    u.toks.remove(t)
+                    k = 0
+                    while k < len(nxt.toks) and nxt.toks[k].kind == "label" and nxt.toks[k] is not t:
+                        k += 1
+                    nxt.toks.insert(0, t)
+                elif prev is not None and h == prev.id and last_b is None:
+                    u.toks.remove(t)
+                    prev.toks.append(t)
+    for sname in model.section_order:
+        units = model.sections[sname]
+        for i, u in enumerate(units):
+            if u.bytes() or not u.toks:
+                continue
+            prev = next((x for x in reversed(units[:i]) if x.bytes()), None)
+            nxt = next((x for x in units[i + 1 :] if x.bytes()), None)
+            if prev is not None:
+                prev.toks.extend(u.toks)
+                u.toks = []
+            elif nxt is not None:
+                nxt.toks[0:0] = u.toks
+                u.toks = []
+    # The order of the non-empty units of a section must equal the real
+    # address order (bytes must not be reordered).  A difference is noted
+    # and judged last, so that it cannot mask anything else; the model
+    # follows the real order from here on.
+    deferred = []
     for sname, lst in obs.sections.items():
         if sname not in model.sections:
             continue
         rank = {o.unit: i for i, o in enumerate(lst)}
-        model.sections[sname].sort(key=lambda u: rank.get(u.id, 1 << 30))
+        units = model.sections[sname]
+        nonempty_old = [u.id for u in units if not u.new and u.bytes()]
+        real_order = [o.unit for o in lst if o.data and o.unit in set(nonempty_old)]
+        if nonempty_old != real_order:
+            deferred.append(
+                core.Violation(
+                    "C01",
+                    "byte-mismatch",
+                    {"what": "byte intervals of a section were reordered", "section": sname, "model_order": nonempty_old, "real_order": real_order},
+                    {"where": "unit-order"},
+                )
+            )
+        all_old = [u.id for u in units if not u.new and u.id in rank]
+        if all_old != [o.unit for o in lst if o.unit in set(all_old)]:
+            obs.reordered = True
+        units.sort(key=lambda u: rank.get(u.id, 1 << 30))
+    return deferred
 
 
 def match_unit(world, unit, o, obs):
@@ -102,7 +176,7 @@ def match_unit(world, unit, o, obs):
             if r == len(data):
                 return [r], []
             tail = data[r:]
-            if _is_pad(tail, prev_kind(i), nop) and _pad_ok(world, o, obs, r, len(tail), final=True):
+            if (_is_pad(tail, prev_kind(i), nop) or _is_pad(tail, _real_prev_kind(o, r), nop)) and _pad_ok(world, o, obs, r, len(tail), final=True):
                 return [r], [(r, len(tail))]
             if r > best["r"]:
                 best["r"], best["err"] = r, {"at_real_offset": r, "token": None, "expected": "", "found": tail[:16].hex(), "what": "trailing bytes"}
@@ -125,7 +199,7 @@ def match_unit(world, unit, o, obs):
         for p in range(1, 65):
             if data[r + p : r + p + len(t.b)] != t.b:
                 continue
-            if not _is_pad(data[r : r + p], pk, nop):
+            if not (_is_pad(data[r : r + p], pk, nop) or _is_pad(data[r : r + p], _real_prev_kind(o, r), nop)):
                 continue
             if not _pad_ok(world, o, obs, r, p):
                 continue
@@ -162,6 +236,18 @@ def _pad_ok(world, o, obs, r, p, final=False):
     if o.addr is not None and (o.addr + r + p) % al:
         return False
     return True
+
+
+def _real_prev_kind(o, r):
+    """kind of the real block that ends at offset r (zero-sized blocks
+    count: padding after a kept zero-sized code block is made of nops)"""
+    kinds = [kind for (b, off, size, kind) in o.blocks if off + size == r and not (off == r and size and False)]
+    ended = [kind for (b, off, size, kind) in o.blocks if off + size == r and off <= r]
+    if "code" in ended:
+        return "insn"
+    if "data" in ended:
+        return "data"
+    return None
 
 
 def _is_pad(run, prev_kind, nop):
